@@ -252,7 +252,8 @@ func (a Float) M__floordiv__(other Object) (Object, error) {
 	if b, ok, err := floatOperand(other); err != nil {
 		return nil, err
 	} else if ok {
-		return Float(math.Floor(float64(a / b))), nil
+		q, _, err := floatDivMod(a, b)
+		return q, err
 	}
 	return NotImplemented, nil
 }
@@ -261,7 +262,8 @@ func (a Float) M__rfloordiv__(other Object) (Object, error) {
 	if b, ok, err := floatOperand(other); err != nil {
 		return nil, err
 	} else if ok {
-		return Float(math.Floor(float64(b / a))), nil
+		q, _, err := floatDivMod(b, a)
+		return q, err
 	}
 	return NotImplemented, nil
 }
